@@ -4,8 +4,8 @@ import fcntl, hashlib, json, os, random, re, subprocess, sys, time, concurrent.f
 VERIF = os.path.dirname(os.path.dirname(os.path.abspath(__file__)))
 LEAN = os.path.join(VERIF, "lean")
 HARNESS = os.path.join(VERIF, "harness")
-ORACLE = os.path.join(LEAN, ".lake", "build", "bin", "oracle")
-DRIVE = os.path.join(HARNESS, "bin", "drive")
+def oracle_exe(comp): return os.path.join(LEAN, ".lake", "build", "bin", "oracle_" + comp)
+def drive_exe(comp): return os.path.join(HARNESS, "bin", "drive_" + comp)
 EXTRACT = os.path.join(HARNESS, "bin", "extract")
 REPO = os.environ.get("VERIF_REPO", "/repo")
 ALLOWED_AXIOMS = {"propext", "Classical.choice", "Quot.sound"}
@@ -37,8 +37,8 @@ def sh(cmd, cwd=None, env=None, timeout=None, inp=None):
 
 # ---------------------------------------------------------------- builds
 
-def build_go(log):
-    """go build -tags verif against /repo's current working tree."""
+def build_go(log, cmds=None):
+    """go build -tags verif against /repo's current working tree. cmds: list of component names (drive_<c>) or None = all."""
     with Lock("go"):
         gosum = os.path.join(HARNESS, "go.sum")
         try:
@@ -48,7 +48,9 @@ def build_go(log):
         except OSError:
             pass
         t = time.time()
-        rc, out = sh(["go", "build", "-tags", "verif", "-o", os.path.join(HARNESS, "bin") + "/", "./cmd/..."],
+        pk = ["./cmd/..."] if cmds is None else [f"./cmd/{c}" if c.startswith("extract") else f"./cmd/drive_{c}" for c in cmds]
+        os.makedirs(os.path.join(HARNESS, "bin"), exist_ok=True)
+        rc, out = sh(["go", "build", "-tags", "verif", "-o", os.path.join(HARNESS, "bin") + "/"] + pk,
                      cwd=HARNESS, env=goenv(), timeout=900)
         log(f"go build rc={rc} {time.time()-t:.1f}s")
         return rc, out
@@ -188,16 +190,16 @@ def run_parallel(cmd, cases, chunk=None, timeout=120):
 
 class Stream:
     """one correspondence stream: same op lines through the real code (`drive …`) and the Lean model (`oracle …`)."""
-    def __init__(self, name, drive_args, oracle_args, gen, predicate=None, nontrivial=None, canon=None,
-                 corpus=None, keep_prefix=1, timeout=180):
-        self.name, self.drive_args, self.oracle_args = name, drive_args, oracle_args
+    def __init__(self, name, comp, gen, predicate=None, nontrivial=None, canon=None,
+                 corpus=None, keep_prefix=1, timeout=180, drive_args=(), oracle_args=()):
+        self.name, self.comp, self.drive_args, self.oracle_args = name, comp, list(drive_args), list(oracle_args)
         self.gen, self.predicate, self.nontrivial = gen, predicate, nontrivial
         self.canon = canon or (lambda ops, out: out)
         self.corpus, self.keep_prefix, self.timeout = corpus, keep_prefix, timeout
     def impl(self, cases):
-        return run_parallel([DRIVE] + self.drive_args, cases, timeout=self.timeout)
+        return run_parallel([drive_exe(self.comp)] + self.drive_args, cases, timeout=self.timeout)
     def model(self, cases):
-        return run_parallel([ORACLE] + self.oracle_args, cases, timeout=self.timeout)
+        return run_parallel([oracle_exe(self.comp)] + self.oracle_args, cases, timeout=self.timeout)
 
 def ddmin(ops, keep, fails):
     """delta-debug the op list (first `keep` lines fixed) while `fails(ops)` stays true."""
@@ -289,12 +291,13 @@ class Run:
         return None
 
     # ---- proof side
-    def prove(self, module, theorems, thorough_leanchecker=True):
+    def prove(self, module, theorems, comps=(), thorough_leanchecker=True):
+        """build the property module (+ the oracle executables of `comps`), audit axioms of every theorem."""
         hits = grep_forbidden()
         if hits:
             self.violation("proof-grep", "# forbidden constructs in lean/ sources\n" + "\n".join(hits) + "\n", False,
                            "forbidden constructs")
-        rc, out = build_lean([module, "oracle"], self.log)
+        rc, out = build_lean([module] + ["oracle_" + c for c in comps], self.log)
         if rc != 0:
             self.proof["build_failed"] = True
             body = f"# lake build {module} failed: a proof obligation of {self.prop} is no longer discharged\n"
@@ -443,3 +446,50 @@ class Run:
         self.log(f"done: {len(self.violations)} violation(s), {self.cov['evaluations']} cases, "
                  f"{self.proof['discharged']}/{self.proof['obligations']} obligations")
         return 1 if self.violations else 0
+
+
+# ---------------------------------------------------------------- standard driver for a property module
+
+def standard_run(r, mod):
+    """mod provides: MODULE, THEOREMS, COMPS, streams(tier)->[(Stream, n)], RULE, ASSUME; optional RECOGNISERS, extra(r)."""
+    r.recognisers.update(getattr(mod, "RECOGNISERS", {}))
+    if getattr(mod, "NEEDS_FACTS", False):
+        rc, out = build_go(r.log, ["extract"])
+        if rc == 0:
+            rc, out = extract_facts(r.log)
+        if rc != 0:
+            r.violation("extract", "# fact extractor failed on /repo: the regenerated tie no longer checks\n" + out[-3000:], False,
+                        "extractor failed")
+    r.prove(mod.MODULE, mod.THEOREMS, comps=mod.COMPS)
+    rc, out = build_go(r.log, list(mod.COMPS) + list(getattr(mod, "GO_EXTRA", [])))
+    if rc != 0:
+        r.violation("go-build", "# harness does not build against /repo any more\n" + out[-3000:], False, "go build failed")
+        return r.finish(rule=mod.RULE, assumptions=mod.ASSUME)
+    for s, n in mod.streams(r.tier):
+        r.correspond(s, n)
+    if hasattr(mod, "extra"):
+        mod.extra(r)
+    return r.finish(rule=mod.RULE, assumptions=mod.ASSUME)
+
+def replay(r, mod, path):
+    lines = [l.rstrip("\n") for l in open(path)]
+    name = next((l.split()[1] for l in lines if l.startswith("#stream ")), None)
+    ops = [l for l in lines if l.strip() and not l.startswith("#")]
+    streams = {s.name: s for s, _ in mod.streams(r.tier)}
+    if name not in streams:
+        print("\n".join(lines))
+        print(f"replay file is not an op-stream case (stream={name}); it documents a broken proof obligation / build")
+        return 1
+    s = streams[name]
+    rc, out = build_go(r.log, list(mod.COMPS))
+    rc2, out2 = build_lean(["oracle_" + c for c in mod.COMPS], r.log)
+    io, mo = s.impl([ops])[0], s.model([ops])[0]
+    why = s.predicate(ops, io) if s.predicate else None
+    print(r.render(s, ops, io, mo, f"predicate: {why or 'holds'}; outputs {'differ' if s.canon(ops, io) != s.canon(ops, mo) else 'agree'}"))
+    if why:
+        print(f"VIOLATION property={r.prop} replay={path}")
+        return 1
+    if s.canon(ops, io) != s.canon(ops, mo):
+        print(f"VIOLATION property={r.prop} replay={path} no-failing-input-found")
+        return 1
+    return 0
